@@ -9,8 +9,8 @@ package section
 //@   requires 0 <= p.offset
 //@   ensures old(p.offset) <= p.offset
 //@   ensures p.offset <= len(p.content) || p.offset == old(p.offset)
-//@   ensures p.offset < len(p.content) ==> p.content[p.offset] == '\n'
-//@   ensures forall i int :: old(p.offset) <= i && i < p.offset ==> p.content[i] != '\n'
+//@   ensures [C01,C06,C13,C19] a-line-ends-at-a-newline-or-at-the-end-of-the-text: p.offset < len(p.content) ==> p.content[p.offset] == '\n'
+//@   ensures [C01,C06,C13,C19] nothing-of-the-line-is-skipped: forall i int :: old(p.offset) <= i && i < p.offset ==> p.content[i] != '\n'
 //@   assigns p.offset
 //@   loop 0
 //@     invariant old(p.offset) <= p.offset
